@@ -10,6 +10,7 @@ def main(tier):
     roots = pure.query_roots(P)
     rep.floor("PURE.roots", len(roots), 12, "query root functions")
     E, R, S, rc = pure.run(P, rep, roots)
+    pure.stream_io(P, rep, R)
     rep.floor("PURE.models", sum(1 for k in R if k in P.funcs and "Models::" in P.funcs[k].qn and P.funcs[k].name.startswith("get_")), 57,
               "model get_* functions reached from the roots")
     tables, outv, counter = layout.width_tables(P, rep)
